@@ -11,34 +11,442 @@ namespace SasLexer
 open Prog (perform)
 open P
 
-/-- STUB -/
-def lexMaybeMacroCallArgsOrLabel (_cfg : Cfg) (_c : Char) (_checkMacroLabel : Bool) : Prog Unit :=
-  unmodelled "lex_maybe_macro_call_args_or_label"
-/-- STUB -/
-def lexMaybeMacroCallArgAssign (_cfg : Cfg) (_c : Char) (_flags : Nat) : Prog Unit :=
-  unmodelled "lex_maybe_macro_call_arg_assign"
-/-- STUB -/
-def lexMaybeTailMacroCallArgValue (_cfg : Cfg) (_c : Char) : Prog Unit :=
-  unmodelled "lex_maybe_tail_macro_call_arg_value"
-/-- STUB -/
-def dispatchMacroCallArgOrValue (_cfg : Cfg) (_c : Char) (_flags : Nat) : Prog Unit :=
-  unmodelled "dispatch_macro_call_arg_or_value"
-/-- STUB -/
-def dispatchMacroCallArgValue (_cfg : Cfg) (_c : Char) (_flags _pnl : Nat) : Prog Unit :=
-  unmodelled "dispatch_macro_call_arg_value"
-/-- STUB -/
-def lexMaybeMacroDefArgs (_cfg : Cfg) (_c : Char) : Prog Unit := unmodelled "lex_maybe_macro_def_args"
-/-- STUB -/
-def dispatchMacroDefArg (_cfg : Cfg) (_c : Char) : Prog Unit := unmodelled "dispatch_macro_def_arg"
-/-- STUB -/
-def lexMacroDefNextArgOrDefaultValue (_cfg : Cfg) (_c : Char) : Prog Unit :=
-  unmodelled "lex_macro_def_next_arg_or_default_value"
-/-- STUB -/
-def dispatchMacroStrQuotedExpr (_cfg : Cfg) (_c : Char) (_maskMacro : Bool) (_pnl : Nat) : Prog Unit :=
-  unmodelled "dispatch_macro_str_quoted_expr"
-/-- STUB: returns `true` if an identifier token was emitted -/
-def lexMacroDefIdentifier (_cfg : Cfg) (_c : Char) (_isArgument : Bool) : Prog Bool := do
-  unmodelled "lex_macro_def_identifier"
-  pure false
+/-! ## pure helpers -/
+
+/-- `needs_macro_sep` of `macro.rs` (feature `macro_sep`); private copy, `MacroCall.lean`
+has its own. -/
+private def needsMacroSep' (prev : Option TokenType) (ty : TokenType) : Bool :=
+  !(match prev with
+    | none => true
+    | some p => p == .SEMI || p == .MacroLabel || p == .KwmThen || p == .KwmElse)
+  && [TokenType.MacroLabel, .KwmAbort, .KwmCopy, .KwmDisplay, .KwmGlobal, .KwmGoto, .KwmInput,
+      .KwmLocal, .KwmPut, .KwmReturn, .KwmSymdel, .KwmSyscall, .KwmSysexec, .KwmSyslput,
+      .KwmSysmacdelete, .KwmSysmstoreclear, .KwmSysrput, .KwmWindow, .KwmMacro, .KwmMend,
+      .KwmLet, .KwmIf, .KwmElse, .KwmDo, .KwmEnd].contains ty
+
+/-- `u32::wrapping_add_signed(i32)` -/
+def wrapAddSigned (pnl : Nat) (l : Int) : Nat := (((pnl : Int) + l) % 4294967296).toNat
+
+/-- the `match flags.context() { … }` that selects the mode of the next argument (written
+out three times in the Rust) -/
+def nextArgModeOf (flags : Nat) : Mode :=
+  match ArgFlags.context flags with
+  | .macroCall => .macroCallArgOrValue flags
+  | .builtInMacro => .macroCallValue flags 0
+  | .macroDef => .macroDefArg
+
+/-- second char of a text or `EOF_CHAR` (`peek_next` on an already fetched `rest`) -/
+def secondCharOr0 (r : List Char) : Char := (r.drop 1).head?.getD (Char.ofNat 0)
+
+def lastTokTyIs (o : Option (TokenType × Channel)) (p : TokenType → Bool) : Bool :=
+  match o with | some t => p t.1 | none => false
+
+/-- the `if flags.populate_next_arg_stack() { … }` block after a terminating `,` (written
+out three times in the Rust) -/
+def populateNextArgStack (flags : Nat) : Prog Unit := do
+  if ArgFlags.populateNextArgStack flags then
+    startToken
+    advance_
+    emitD .COMMA
+    pushMode (nextArgModeOf flags)
+    pushMode .wsOrCStyleCommentOnly
+
+/-! ## `lex_maybe_macro_call_args_or_label` -/
+/-- `lex_maybe_macro_call_args_or_label` -/
+def lexMaybeMacroCallArgsOrLabel (cfg : Cfg) (c : Char) (checkMacroLabel : Bool) : Prog Unit := do
+  dbg cfg (do pure ((← mode) == .maybeMacroCallArgsOrLabel checkMacroLabel))
+    "lex_maybe_macro_call_args_or_label: mode"
+  if c == '(' then
+    startToken
+    advance_
+    emitD .LPAREN
+    perform .clearCheckpoint
+    popMode
+    pushMode (.expectSymbol .RPAREN .DEFAULT)
+    pushMode (.macroCallArgOrValue (ArgFlags.new .macroCall true true))
+    pushMode .wsOrCStyleCommentOnly
+  else if c == ':' && checkMacroLabel then
+    if !(← perform (.retypeLastDefault .MacroIdentifier .MacroLabel)) then
+      emitError .InternalErrorNoTokenToReplace
+    if cfg.macroSep then
+      -- `last_two_tokens`: the last two DEFAULT-channel tokens, newest first
+      match (← perform .lastDefaultTok) with
+      | some lastTy =>
+        let secondLastTy ← perform .secondLastDefaultTok
+        if needsMacroSep' secondLastTy lastTy then perform .insertSepBeforeLastDefault
+      | none => pure ()
+    startToken
+    advance_
+    emit .HIDDEN .COLON
+    perform .clearCheckpoint
+    popMode
+  else
+    dbg cfg (perform .hasCheckpoint) "lex_maybe_macro_call_args_or_label: checkpoint.is_some()"
+    perform .rollback
+
+/-! ## `lex_maybe_macro_call_arg_assign` -/
+/-- `lex_maybe_macro_call_arg_assign` -/
+def lexMaybeMacroCallArgAssign (cfg : Cfg) (c : Char) (flags : Nat) : Prog Unit := do
+  dbg cfg (do pure ((← mode) == .maybeMacroCallArgAssign flags)) "lex_maybe_macro_call_arg_assign: mode"
+  popMode
+  if c == '=' then
+    startToken
+    advance_
+    emitD .ASSIGN
+    perform .clearCheckpoint
+    pushMode (.macroCallValue flags 0)
+    pushMode .wsOrCStyleCommentOnly
+  else
+    dbg cfg (perform .hasCheckpoint) "lex_maybe_macro_call_arg_assign: checkpoint.is_some()"
+    perform .rollback
+    pushMode (.macroCallValue flags 0)
+
+/-! ## `lex_maybe_tail_macro_call_arg_value` -/
+/-- `lex_maybe_tail_macro_call_arg_value` -/
+def lexMaybeTailMacroCallArgValue (cfg : Cfg) (c : Char) : Prog Unit := do
+  dbg cfg (do pure ((← mode) == .maybeTailMacroArgValue)) "lex_maybe_tail_macro_call_arg_value: mode"
+  popMode
+  if c == ',' then
+    startToken
+    advance_
+    emitD .COMMA
+    pushMode (.macroCallValue (ArgFlags.new .builtInMacro false false) 0)
+    pushMode .wsOrCStyleCommentOnly
+
+/-! ## `dispatch_macro_call_arg_or_value` -/
+
+/-- the nested `fn safe_pop_mode` -/
+def safePopMode : Prog Unit := do
+  perform .clearCheckpoint
+  popMode
+
+/-- the closure `switch_to_value_mode` -/
+def switchToValueMode (flags : Nat) : Prog Unit := do
+  if (← perform .hasCheckpoint) then perform .rollback else popMode
+  pushMode (.macroCallValue flags 0)
+
+/-- the closure `push_check_assign` -/
+def pushCheckAssign (flags : Nat) : Prog Unit := do
+  if !(← perform .hasCheckpoint) then perform .checkpoint
+  pushMode (.maybeMacroCallArgAssign flags)
+  pushMode .wsOrCStyleCommentOnly
+
+/-- `dispatch_macro_call_arg_or_value` -/
+def dispatchMacroCallArgOrValue (cfg : Cfg) (c : Char) (flags : Nat) : Prog Unit := do
+  dbg cfg (do pure ((← mode) == .macroCallArgOrValue flags)) "dispatch_macro_call_arg_or_value: mode"
+  startToken
+  if c == '/' then
+    if (← peekNext) == '*' then pushCheckAssign flags
+    else switchToValueMode flags
+  else if c == '&' then
+    if (← lexMacroVarExpr cfg) then perform .clearCheckpoint
+    else switchToValueMode flags
+  else if c == '%' then
+    let n ← peekNext
+    if n == '*' then
+      startToken
+      lexMacroComment cfg
+    else if isUnicodeNameStart n then
+      perform .clearCheckpoint
+      let modeStackLen ← perform .modeDepth
+      startToken
+      lexMacroIdentifier cfg false
+      if lastTokTyIs (← perform .lastTok) isMacroStatTokType then pure ()
+      else
+        perform (.insertModeAt modeStackLen .makeCheckpoint)
+        perform (.insertModeAt modeStackLen .wsOrCStyleCommentOnly)
+        perform (.insertModeAt modeStackLen (.maybeMacroCallArgAssign flags))
+    else switchToValueMode flags
+  else if c == ',' && ArgFlags.terminateOnComma flags then
+    safePopMode
+    populateNextArgStack flags
+  else if c == ')' then safePopMode
+  else if isWhitespace c then pushCheckAssign flags
+  else
+    let firstToken := !(lastTokTyIs (← perform .lastTok) fun ty =>
+      ty == .MacroVarTerm || ty == .MacroIdentifier || ty == .MacroString || ty == .RPAREN)
+    if isUnicodeNameStart c || (!firstToken && isXidContinue c) then
+      perform .checkpoint
+      eatWhile isXidContinue
+      emitD .MacroString
+    else if c == '=' && !firstToken then
+      startToken
+      advance_
+      emitD .ASSIGN
+      safePopMode
+      pushMode (.macroCallValue flags 0)
+      pushMode .wsOrCStyleCommentOnly
+    else switchToValueMode flags
+
+/-! ## `lex_macro_string_in_macro_call_arg_value` -/
+
+/-- the closure `emit_token_update_nesting` of `lex_macro_string_in_macro_call_arg_value` -/
+def emitTokenUpdateNestingArg (pnl : Nat) (loc : Int) : Prog Unit := do
+  emitD .MacroString
+  if loc != 0 then
+    perform (.dassert (decide ((pnl : Int) + loc ≥ 0)) "lex_macro_string_in_macro_call_arg_value: nesting >= 0")
+    -- `if let Some(m) = mode_stack.last_mut() { match m { MacroCallValue{pnl,..} => …, _ => unreachable!() } }`
+    if (← perform .modeDepth) != 0 then
+      match (← mode) with
+      | .macroCallValue _ _ =>
+        perform (.modifyTop fun m =>
+          match m with
+          | .macroCallValue f p => .macroCallValue f (wrapAddSigned p loc)
+          | m => m)
+      | _ => abort "unreachable: lex_macro_string_in_macro_call_arg_value"
+
+/-- the `while let Some(c) = self.cursor.peek()` loop; every iteration that does not return
+consumes at least one character -/
+def lexMacroStringInMacroCallArgValueLoop (flags pnl : Nat) : Nat → Int → Prog Unit
+  | 0, _ => abort "fuel:lex_macro_string_in_macro_call_arg_value"
+  | f + 1, loc => do
+    let r ← rest
+    match r.head? with
+    | none => emitTokenUpdateNestingArg pnl loc
+    | some c =>
+      if c == '\'' || c == '"' then emitTokenUpdateNestingArg pnl loc
+      else if c == '/' && secondCharOr0 r == '*' then emitTokenUpdateNestingArg pnl loc
+      else if c == '&' then
+        let (isMacro, ampCount) := isMacroAmp r 0
+        if isMacro then emitTokenUpdateNestingArg pnl loc
+        else do advanceBy ampCount; lexMacroStringInMacroCallArgValueLoop flags pnl f loc
+      else if c == '%' then
+        if isMacroPercent (secondCharOr0 r) false then emitTokenUpdateNestingArg pnl loc
+        else do advance_; lexMacroStringInMacroCallArgValueLoop flags pnl f loc
+      else if c == '\n' then do
+        advance_
+        addLine
+        lexMacroStringInMacroCallArgValueLoop flags pnl f loc
+      else if c == '(' then do
+        advance_
+        lexMacroStringInMacroCallArgValueLoop flags pnl f (loc + 1)
+      else if c == ')' && wrapAddSigned pnl loc != 0 then do
+        advance_
+        lexMacroStringInMacroCallArgValueLoop flags pnl f (loc - 1)
+      else if c == ')' && wrapAddSigned pnl loc == 0 then
+        emitD .MacroString
+        popMode
+      else if c == ',' && wrapAddSigned pnl loc == 0 && ArgFlags.terminateOnComma flags then
+        emitD .MacroString
+        popMode
+        populateNextArgStack flags
+      else do advance_; lexMacroStringInMacroCallArgValueLoop flags pnl f loc
+
+/-- `lex_macro_string_in_macro_call_arg_value` -/
+def lexMacroStringInMacroCallArgValue (cfg : Cfg) (flags pnl : Nat) : Prog Unit := do
+  dbg cfg (do
+      match (← mode) with
+      | .macroCallValue f _ => pure (f == flags)
+      | _ => pure false)
+    "lex_macro_string_in_macro_call_arg_value: mode"
+  lexMacroStringInMacroCallArgValueLoop flags pnl (← fuelOfRest) 0
+
+/-! ## `dispatch_macro_call_arg_value` -/
+/-- `dispatch_macro_call_arg_value` -/
+def dispatchMacroCallArgValue (cfg : Cfg) (c : Char) (flags pnl : Nat) : Prog Unit := do
+  dbg cfg (do pure ((← mode) == .macroCallValue flags pnl)) "dispatch_macro_call_arg_value: mode"
+  startToken
+  if c == '\'' then lexSingleQuotedStr cfg
+  else if c == '"' then lexStringExpressionStart cfg true
+  else if c == '/' then
+    if (← peekNext) == '*' then lexCStyleComment cfg
+    else
+      advance_
+      lexMacroStringInMacroCallArgValue cfg flags pnl
+  else if c == '&' then
+    if !(← lexMacroVarExpr cfg) then
+      eatWhile (· == '&')
+      lexMacroStringInMacroCallArgValue cfg flags pnl
+  else if c == '%' then
+    let n ← peekNext
+    if n == '*' then
+      startToken
+      lexMacroComment cfg
+    else if isUnicodeNameStart n then
+      startToken
+      lexMacroIdentifier cfg false
+    else
+      advance_
+      lexMacroStringInMacroCallArgValue cfg flags pnl
+  else if c == '\n' then
+    advance_
+    addLine
+    lexMacroStringInMacroCallArgValue cfg flags pnl
+  else if c == ',' && pnl == 0 && ArgFlags.terminateOnComma flags then
+    popMode
+    populateNextArgStack flags
+  else if c == ')' && pnl == 0 then popMode
+  else lexMacroStringInMacroCallArgValue cfg flags pnl
+
+/-! ## `lex_maybe_macro_def_args` -/
+/-- `lex_maybe_macro_def_args` -/
+def lexMaybeMacroDefArgs (_cfg : Cfg) (c : Char) : Prog Unit := do
+  popMode
+  if c == '(' then
+    startToken
+    advance_
+    emitD .LPAREN
+    pushMode (.expectSymbol .RPAREN .DEFAULT)
+    pushMode .macroDefArg
+    pushMode .wsOrCStyleCommentOnly
+
+/-! ## `lex_macro_def_identifier` -/
+/-- `lex_macro_def_identifier`; returns `true` if an identifier token was emitted -/
+def lexMacroDefIdentifier (cfg : Cfg) (c : Char) (isArgument : Bool) : Prog Bool := do
+  dbg cfg (do
+      let m ← mode
+      pure (m == .macroDefName || m == .macroDefArg))
+    "lex_macro_def_identifier: mode"
+  if isSasNameStart c then
+    eatWhile isSasNameContinue
+    emitD .Identifier
+    pure true
+  else
+    if isArgument then emitError .InvalidMacroDefArgName
+    else emitError .InvalidMacroDefName
+    pure false
+
+/-! ## `dispatch_macro_def_arg` -/
+/-- `dispatch_macro_def_arg` -/
+def dispatchMacroDefArg (cfg : Cfg) (c : Char) : Prog Unit := do
+  dbg cfg (do pure ((← mode) == .macroDefArg)) "dispatch_macro_def_arg: mode"
+  if c == ')' then popMode
+  else
+    startToken
+    if !(← lexMacroDefIdentifier cfg c true) then
+      popMode
+      pushMode (.macroCallArgOrValue (ArgFlags.new .macroDef true true))
+    else
+      popMode
+      pushMode .macroDefNextArgOrDefaultValue
+      pushMode .wsOrCStyleCommentOnly
+
+/-! ## `lex_macro_def_next_arg_or_default_value` -/
+/-- `lex_macro_def_next_arg_or_default_value` -/
+def lexMacroDefNextArgOrDefaultValue (_cfg : Cfg) (c : Char) : Prog Unit := do
+  popMode
+  if c == '=' then
+    startToken
+    advance_
+    emitD .ASSIGN
+    pushMode (.macroCallValue (ArgFlags.new .macroDef true true) 0)
+    pushMode .wsOrCStyleCommentOnly
+  else if c == ',' then
+    startToken
+    advance_
+    emitD .COMMA
+    pushMode .macroDefArg
+    pushMode .wsOrCStyleCommentOnly
+  else pure ()
+
+/-! ## `lex_macro_string_in_str_call` (the third escaping scanner) -/
+
+/-- the closure `emit_token_update_nesting` of `lex_macro_string_in_str_call`; the payload
+is the payload register (filled by `litResolve` just before) -/
+def emitTokenUpdateNestingStr (pnl : Nat) (loc : Int) : Prog Unit := do
+  emitD .MacroString .reg
+  if loc != 0 then
+    perform (.dassert (decide ((pnl : Int) + loc ≥ 0)) "lex_macro_string_in_str_call: nesting >= 0")
+    if (← perform .modeDepth) != 0 then
+      match (← mode) with
+      | .macroStrQuotedExpr _ _ =>
+        perform (.modifyTop fun m =>
+          match m with
+          | .macroStrQuotedExpr mm p => .macroStrQuotedExpr mm (wrapAddSigned p loc)
+          | m => m)
+      | _ => abort "unreachable: lex_macro_string_in_str_call"
+
+/-- `%` followed by one of these is a quoted char inside `%str(…)` -/
+def isStrQuotedChar (c : Char) : Bool := c == '"' || c == '\'' || c == '%' || c == '(' || c == ')'
+
+/-- the `while let Some(c) = self.cursor.peek()` loop; every iteration that does not return
+consumes at least one character -/
+def lexMacroStringInStrCallLoop (maskMacro : Bool) (pnl : Nat) : Nat → Int → Prog Unit
+  | 0, _ => abort "fuel:lex_macro_string_in_str_call"
+  | f + 1, loc => do
+    let r ← rest
+    match r.head? with
+    | none =>
+      perform (.litResolve 0)
+      emitTokenUpdateNestingStr pnl loc
+    | some c =>
+      if c == '\'' || c == '"' then
+        perform (.litResolve 0)
+        emitTokenUpdateNestingStr pnl loc
+      else if c == '/' && secondCharOr0 r == '*' then
+        perform (.litResolve 0)
+        emitTokenUpdateNestingStr pnl loc
+      else if c == '&' && !maskMacro then
+        let (isMacro, ampCount) := isMacroAmp r 0
+        if isMacro then
+          perform (.litResolve 0)
+          emitTokenUpdateNestingStr pnl loc
+        else do advanceBy ampCount; lexMacroStringInStrCallLoop maskMacro pnl f loc
+      else if c == '%' then
+        if isStrQuotedChar (secondCharOr0 r) then
+          perform .litCut
+          advance_
+          perform .litMarkEnd
+          advance_
+          lexMacroStringInStrCallLoop maskMacro pnl f loc
+        else if !maskMacro && isMacroPercent (secondCharOr0 r) false then
+          perform (.litResolve 0)
+          emitTokenUpdateNestingStr pnl loc
+        else do advance_; lexMacroStringInStrCallLoop maskMacro pnl f loc
+      else if c == '\n' then do
+        advance_
+        addLine
+        lexMacroStringInStrCallLoop maskMacro pnl f loc
+      else if c == '(' then do
+        advance_
+        lexMacroStringInStrCallLoop maskMacro pnl f (loc + 1)
+      else if c == ')' && wrapAddSigned pnl loc != 0 then do
+        advance_
+        lexMacroStringInStrCallLoop maskMacro pnl f (loc - 1)
+      else if c == ')' && wrapAddSigned pnl loc == 0 then
+        perform (.litResolve 0)
+        emitD .MacroString .reg
+        popMode
+      else do advance_; lexMacroStringInStrCallLoop maskMacro pnl f loc
+
+/-- `lex_macro_string_in_str_call` -/
+def lexMacroStringInStrCall (cfg : Cfg) (maskMacro : Bool) (pnl : Nat) : Prog Unit := do
+  dbg cfg (do pure ((← mode) == .macroStrQuotedExpr maskMacro pnl)) "lex_macro_string_in_str_call: mode"
+  -- `last_lit_end_byte_offset = self.cur_byte_offset()` here, i.e. possibly after a char
+  -- that the dispatcher has already consumed
+  perform .litBegin
+  lexMacroStringInStrCallLoop maskMacro pnl (← fuelOfRest) 0
+
+/-! ## `dispatch_macro_str_quoted_expr` -/
+/-- `dispatch_macro_str_quoted_expr` -/
+def dispatchMacroStrQuotedExpr (cfg : Cfg) (c : Char) (maskMacro : Bool) (pnl : Nat) : Prog Unit := do
+  dbg cfg (do pure ((← mode) == .macroStrQuotedExpr maskMacro pnl)) "dispatch_macro_str_quoted_expr: mode"
+  startToken
+  if c == '\'' then lexSingleQuotedStr cfg
+  else if c == '"' then lexStringExpressionStart cfg true
+  else if c == '/' then
+    if (← peekNext) == '*' then lexCStyleComment cfg
+    else
+      advance_
+      lexMacroStringInStrCall cfg maskMacro pnl
+  else if c == '&' && !maskMacro then
+    if !(← lexMacroVarExpr cfg) then
+      eatWhile (· == '&')
+      lexMacroStringInStrCall cfg maskMacro pnl
+  else if c == '%' && !maskMacro then
+    let n ← peekNext
+    if isStrQuotedChar n then lexMacroStringInStrCall cfg maskMacro pnl
+    else if isUnicodeNameStart n then
+      startToken
+      lexMacroIdentifier cfg false
+    else
+      advance_
+      lexMacroStringInStrCall cfg maskMacro pnl
+  else if c == '\n' then
+    advance_
+    addLine
+    lexMacroStringInStrCall cfg maskMacro pnl
+  else if c == ')' && pnl == 0 then popMode
+  else lexMacroStringInStrCall cfg maskMacro pnl
 
 end SasLexer
